@@ -20,6 +20,17 @@ def install(interp):
     def m_binary(interp, st, args, kwargs):
         yield st, args[0]       # sqlite3.Binary is memoryview: a view of the same bytes
     interp.models[sqlite3.Binary] = m_binary
+
+    import time
+
+    def m_time(interp, st, args, kwargs):
+        t = z3.Int(fresh_name('now'))
+        st.assume(t > 0)
+        interp.assumptions.add("time.time()/loop.time() return an unknown positive number (modelled as an integer)")
+        yield st, VInt(t)
+    interp.models[time.time] = m_time
+    interp.models[time.perf_counter] = m_time
+    interp.models[time.monotonic] = m_time
     install_hashlib(interp)
 
 
